@@ -127,6 +127,10 @@ def run(R):
                      "min-selection keys and further cost arithmetic, never an operand of a plan aggregate")
     R.rule("C02-R6", "correlated versus uncorrelated joins: hash / nested-loop candidates (right side evaluated on the unit input) "
                      "are offered only when the right operand is input-transparent")
+    R.rule("C02-R8", "reordering is a permutation and a faithful rebuild: reorder_logical rebuilds every node from ALL fields of the matched "
+                     "variant, each in its own position (children recursively, the rest cloned); greedy_order_scans leaves its loop only "
+                     "when no scan remains, moves exactly the chosen scan from `remaining` to the order in every iteration, and returns "
+                     "the patterns in that order without truncation")
     R.rule("C02-R7", "parallel execution sees its whole input: what the rayon workers of the executor iterate over reaches them from the "
                      "operator's input rows only through element-preserving steps (par_chunks / par_iter / into_par_iter ...); no "
                      "hand-computed batches, no truncating adaptor - otherwise the answer depends on the thread count")
@@ -136,6 +140,7 @@ def run(R):
     r4(R)
     r6(R)
     r7(R)
+    r8(R)
 
 
 def r1(R):
@@ -475,3 +480,126 @@ def r7(R):
                  "(a division remainder) are never processed, and how many depends on the worker count"
                  % "; ".join(sorted({"%s%s" % (t[1], (" (line %s)" % t[2]) if t[2] else "") for t in other})))
     R.floor("C02-R7", "rayon worker pipelines in the executor", n, 1)
+
+
+def r8(R):
+    from lib import pipeline as P
+    from lib import guards as G
+    prog = R.prog
+    ro = R.body("C02-R8", "Streamertail::reorder_logical", crate="kolibrie")
+    adts = prog.adt(LOP)
+    adt = adts[0] if isinstance(adts, list) and adts else adts
+    if ro is not None and adt:
+        variants = {v["name"].lower(): v for v in adt["variants"]}
+        n = 0
+        for c in ro.calls():
+            pk = c.pretty or ""
+            if "LogicalOperator::" not in pk or c.name() not in variants or c.name() in ("unit",):
+                continue
+            v = variants[c.name()]
+            want = [f["name"] for f in v["fields"]]
+            got = []
+            for a in c.args:
+                got.append(_field_of_plan(prog, ro, a))
+            n += 1
+            ok = got == want
+            R.ob("C02-R8", "rebuild:" + v["name"], "reorder_logical rebuilds %s from its fields %s in order (got %s)" % (v["name"], want, got), ok, where=ro.where(c.ln),
+                 detail=None if ok else "a field that is dropped, replaced or swapped with a same-typed sibling changes the query while it is being reordered")
+        R.floor("C02-R8", "nodes rebuilt by reorder_logical", n, 6)
+    go = R.body("C02-R8", "Streamertail::greedy_order_scans", crate="kolibrie")
+    if go is None:
+        return
+    R.saw(go)
+    # the selection loop: the loop that contains a push to `order` and a retain on `remaining`
+    pushes = [c for c in go.calls() if c.name() == "push" and c.args and go.local_name(go.alias_root(c.args[0]) or -1) == "order"]
+    retains = [c for c in go.calls() if c.name() == "retain" and c.args and go.local_name(go.alias_root(c.args[0]) or -1) == "remaining"]
+    loops = [(h, blk) for h, blk in go.loops() if any(c.bb in blk for c in pushes) and any(c.bb in blk for c in retains)]
+    R.ob("C02-R8", "selection-loop", "greedy_order_scans has one loop that moves scans from `remaining` to `order`", len(loops) == 1, where=go.where())
+    if len(loops) == 1:
+        h, blk = loops[0]
+        inl_p = [c for c in pushes if c.bb in blk]
+        inl_r = [c for c in retains if c.bb in blk]
+        # exits: only the is_empty(remaining) test (panics / unreachable aside)
+        bad = []
+        for k in blk:
+            for s2 in go.succ(k):
+                if s2 in blk or go.blocks[s2]["term"]["t"] == "unreachable":
+                    continue
+                conds = [cd for tgt, cd in G.edge_conditions(go, k) if tgt == s2]
+                okc = any(cd.get("kind") == "call" and cd["call"].name() == "is_empty" and go.local_name(go.alias_root(cd["call"].args[0]) or -1) == "remaining"
+                          for cd in conds)
+                if not okc:
+                    # edges into panic paths (expect) are fine: they do not produce an order
+                    if not (go.reach_from([s2]) & set(go.exits())):
+                        continue
+                    reach_ret = any(go.blocks[x]["term"]["t"] == "return" for x in go.reach_from([s2]))
+                    if reach_ret:
+                        bad.append(k)
+        R.ob("C02-R8", "until-empty", "the selection loop is left only when `remaining` is empty", not bad, where=go.where())
+        # every iteration reaches both the push and the retain, on the same chosen index
+        entries = [s2 for s2 in go.succ(h) if s2 in blk]
+        skip_p = h in go.reach_from(entries, avoid={c.bb for c in inl_p} | {h}) if False else None
+        # while-loop: iteration entry is the false edge of is_empty; use all in-loop successors of the test block
+        test_blocks = [k for k in blk if any(cd.get("kind") == "call" and cd["call"].name() == "is_empty" for tgt, cd in G.edge_conditions(go, k))]
+        starts = [s2 for k in test_blocks for s2 in go.succ(k) if s2 in blk]
+        miss_p = h in go.reach_from(starts, avoid={c.bb for c in inl_p}) if starts else True
+        miss_r = h in go.reach_from(starts, avoid={c.bb for c in inl_r}) if starts else True
+        R.ob("C02-R8", "moves-one", "every iteration appends the chosen scan to the order and removes it from `remaining`", not miss_p and not miss_r, where=go.where())
+        # same index: the pushed value and the value the retain closure compares against
+        same = False
+        for pc in inl_p:
+            po = go.origin(pc.args[1], stop_named=True)
+            pv = po[1]["l"] if po[0] == "place" else go.alias_root(pc.args[1])
+            for rc in inl_r:
+                o = go.origin(rc.args[1], stop_named=False)
+                rv = o[1] if o[0] == "rv" else None
+                if rv is None and o[0] == "place":
+                    d = go.single_def(o[1]["l"])
+                    rv = d[3] if d and d[0] == "assign" else None
+                if rv is not None and rv["rv"] == "aggregate" and rv.get("ak") == "closure":
+                    caps = set()
+                    for op in rv["ops"]:
+                        oo = go.origin(op, stop_named=True)
+                        if oo[0] == "place":
+                            caps.add(oo[1]["l"])
+                    if pv in caps or go.local_name(pv) in {go.local_name(x) for x in caps}:
+                        same = True
+        R.ob("C02-R8", "same-choice", "the scan removed from `remaining` is the one appended to the order", same, where=go.where())
+    # the result: map over the whole `order`
+    d0 = go.defs().get(0, [])
+    okret = False
+    for d in d0:
+        if d[0] == "call":
+            names, roots = P.flat(P.tree(go, d[2].args[0], stop_named=True)) if d[2].args else ([], [])
+            names = names + [d[2].name()]
+            if any(r["k"] == "root" and r["name"] == "order" for r in roots) and "map" in names and \
+                    not [x for x in names if x in ("take", "skip", "filter", "filter_map", "step_by", "take_while", "skip_while", "dedup", "rev")]:
+                okret = True
+    R.ob("C02-R8", "returns-all", "the result lists the pattern of every position of the order (map over the whole order)", okret, where=go.where())
+
+
+def _field_of_plan(prog, b, op, depth=0):
+    """name of the field of the matched plan node an argument is built from (child: recursive call on it; other: clone of it)"""
+    if depth > 8:
+        return None
+    o = b.origin(op, stop_named=False)
+    if o[0] == "call":
+        c = o[1]
+        if c.name() in ("clone", "deref", "as_ref", "borrow", "to_vec", "to_owned") and c.args:
+            return _field_of_plan(prog, b, c.args[0], depth + 1)
+        if c.key == b.key and len(c.args) >= 2:
+            return _field_of_plan(prog, b, c.args[1], depth + 1)
+        if c.name() in ("collect", "map", "iter", "into_iter") and c.args:
+            return _field_of_plan(prog, b, c.args[0], depth + 1)
+        return None
+    if o[0] == "place":
+        fs = [e["n"] for e in o[1]["p"] if e["k"] == "field" and e.get("adt") == LOP]
+        if fs:
+            return fs[0]
+        d = b.single_def(o[1]["l"])
+        if d and d[0] == "assign":
+            for p2, k2 in F.rv_places(d[3]):
+                r = _field_of_plan(prog, b, {"k": "copy", "pl": p2}, depth + 1)
+                if r:
+                    return r
+    return None
